@@ -24,6 +24,24 @@ theorem Triple.keepDisk {α : Type} {f : M α} (h : ∀ d, Triple (CD d) f (fun 
   obtain ⟨hc', hd'⟩ := this.1 a s' hf
   exact ⟨hc', by rw [hd']; exact hF⟩
 
+/-- the same when the error outcome carries the fact too -/
+theorem Triple.keepDisk' {α : Type} {f : M α} (h : ∀ d, Triple (CD d) f (fun _ => CD d) (CD d)) (F : Disk → Prop) :
+    Triple (fun s => Consistent s ∧ F s.disk) f (fun _ s => Consistent s ∧ F s.disk)
+      (fun s => Consistent s ∧ F s.disk) := by
+  intro s ⟨hc, hF⟩
+  have := h s.disk s ⟨hc, rfl⟩
+  refine ⟨fun a s' hf => ?_, fun e s' hf => ?_⟩
+  · obtain ⟨hc', hd'⟩ := this.1 a s' hf
+    exact ⟨hc', by rw [hd']; exact hF⟩
+  · obtain ⟨hc', hd'⟩ := this.2 e s' hf
+    exact ⟨hc', by rw [hd']; exact hF⟩
+
+/-- the union of `d'` shows outside the subtree at `q0` what the union of `d` shows, up to xattrs -/
+def FrameD (d d' : Disk) (q0 : Path) : Prop :=
+  ∀ q, q0.isSuffixOf q = false → (merge d' q).dropX = (merge d q).dropX
+
+theorem FrameD.refl (d : Disk) (q0 : Path) : FrameD d d q0 := fun _ _ => rfl
+
 /-- what a creating operation leaves at the path `q` (leaf first) -/
 def Created (isMkdir : Bool) (X : Node) (q : Path) (d : Disk) : Prop :=
   (∃ X', specStat d q = some X' ∧ X'.view = X.view) ∧ (isMkdir = true → ∀ c, specStat d (c :: q) = none)
@@ -37,8 +55,31 @@ theorem doCreateLike_eff (pp : Path) (n : Name) (isMkdir : Bool) (meth : Method)
   intro s ⟨hc, pm, hpm, hlo⟩
   have := doCreateLike_spec pp n isMkdir meth X hX s hc hpm hlo
   cases hres : doCreateLike pp n isMkdir (mkChildOf meth n X) s with
-  | ok u s' => rw [hres] at this; exact ⟨this.1, this.2.2⟩
-  | err e s' => rw [hres] at this; exact this
+  | ok u s' => rw [hres] at this; exact ⟨this.1, this.2.2.1, this.2.2.2.1⟩
+  | err e s' => rw [hres] at this; exact this.1
+
+/-- the frame of `doCreateLike`: whether it succeeds or fails, the union outside the subtree at the
+    new name is what it was, up to xattrs (of parent directories that had to be copied up) -/
+theorem doCreateLike_frame (d : Disk) (pp : Path) (n : Name) (isMkdir : Bool) (meth : Method) (X : Node)
+    (hX : NewEntry isMkdir X) :
+    Triple (fun s => (CD d s ∧ DirAt pp s) ∧ ∃ pm, s.mem pp = some pm ∧ pm.loaded = true)
+      (doCreateLike pp n isMkdir (mkChildOf meth n X))
+      (fun _ s => Consistent s ∧ FrameD d s.disk (n :: pp)) (fun s => Consistent s ∧ FrameD d s.disk (n :: pp)) := by
+  apply Triple.ofOutcome
+  intro s ⟨⟨⟨hc, hd⟩, st, hsp, hdir, _⟩, pm, hpm, hlo⟩
+  have hdn : DirNode pp s := by
+    intro m0 r0 rest0 hm0 hr0
+    obtain ⟨_, r, rest, hr, hst⟩ := not_whiteout_of_spec hc hm0 hsp
+    rw [hr0] at hr; cases hr
+    rw [hst]; exact hdir
+  have := doCreateLike_spec pp n isMkdir meth X hX s hc hpm hlo
+  cases hres : doCreateLike pp n isMkdir (mkChildOf meth n X) s with
+  | ok u s' =>
+    rw [hres] at this
+    exact ⟨this.1, fun q hq => by rw [← hd]; exact this.2.2.2.2 hdn q hq⟩
+  | err e s' =>
+    rw [hres] at this
+    exact ⟨this.1, fun q _ => by rw [← hd]; exact this.2 hdn q⟩
 
 theorem createOp_eff (p : List Name) (isMkdir : Bool) (meth : Method) (X : Node) (hX : NewEntry isMkdir X) :
     Triple Consistent (do
@@ -106,5 +147,103 @@ theorem runOp_mknod_eff (p : List Name) (mode : Nat) :
   unfold runOp
   exact createOpId_eff p .mknod (fun id => .other id mode)
     (fun _ => ⟨rfl, rfl, fun h => (by cases h), fun _ => rfl⟩) _ (fun _ => rfl)
+
+/-! ### the frame of the creating operations -/
+
+theorem Triple.and {α : Type} {P P' : St → Prop} {f : M α} {Q Q' : α → St → Prop} {E E' : St → Prop}
+    (h1 : Triple P f Q E) (h2 : Triple P' f Q' E') :
+    Triple (fun s => P s ∧ P' s) f (fun a s => Q a s ∧ Q' a s) (fun s => E s ∧ E' s) := by
+  intro s ⟨hp, hp'⟩
+  exact ⟨fun a s' h => ⟨(h1 s hp).1 a s' h, (h2 s hp').1 a s' h⟩,
+    fun e s' h => ⟨(h1 s hp).2 e s' h, (h2 s hp').2 e s' h⟩⟩
+
+theorem resolveParent_keeps (d : Disk) (p : List Name) :
+    Triple (CD d) (resolveParent p) (fun _ => CD d) (CD d) := by
+  unfold resolveParent
+  split
+  · exact Triple.fail' fun _ h => h
+  · refine Triple.bind (resolve_ro (loadDirectory_cd d) _) fun r => ?_
+    obtain ⟨ppath, pst⟩ := r
+    exact Triple.ite' (fun _ => Triple.fail' fun _ h => h) (fun _ => Triple.pure' fun _ h => h)
+
+/-- `resolveParent` over a fixed disk -/
+theorem resolveParent_cd (d : Disk) (p : List Name) :
+    Triple (CD d) (resolveParent p)
+      (fun r s => r.2 :: r.1 = p.reverse ∧ (CD d s ∧ DirAt r.1 s)) (CD d) := by
+  have := Triple.and (resolveParent_spec' p) (resolveParent_keeps d p)
+  exact this.conseq (fun s h => ⟨h.1, h⟩) (fun r s h => ⟨h.1.1, h.2, h.1.2.2⟩) (fun s h => h.2)
+
+/-- `lookup_node(pp, "")` of a visible directory over a fixed disk -/
+theorem lookupSelf_cd_ready (d : Disk) (pp : Path) :
+    Triple (fun s => CD d s ∧ DirAt pp s) (lookupSelf pp)
+      (fun _ s => (CD d s ∧ DirAt pp s) ∧ ∃ pm, s.mem pp = some pm ∧ pm.loaded = true) (CD d) := by
+  intro s ⟨⟨hc, hd⟩, st, hsp, hdir, m, hm⟩
+  have h := lookupSelf_spec s.disk pp s ⟨⟨hc, rfl⟩, m, hm⟩
+  refine ⟨fun a s' hf => ?_, fun e s' hf => ?_⟩
+  · obtain ⟨⟨hc', hd'⟩, hm', _, hload⟩ := h.1 a s' hf
+    exact ⟨⟨⟨hc', by rw [hd', hd]⟩, st, by rw [hd']; exact hsp, hdir, a, hm'⟩, a, hm', hload st hsp hdir⟩
+  · obtain ⟨⟨hc', hd'⟩, _⟩ := h.2 e s' hf
+    exact ⟨hc', by rw [hd', hd]⟩
+
+theorem freshId_keeps {P : St → Prop} (hP : ∀ s, P s → P { s with nextId := s.nextId + 1 }) {E : St → Prop} :
+    Triple P freshId (fun _ => P) E := by
+  intro s hs
+  refine ⟨fun a s' h => ?_, fun e s' h => ?_⟩ <;> cases h
+  exact hP s hs
+
+/-- Frame of create / mkdir / mknod / symlink: whether the operation succeeds or fails, the union
+    at every path outside the subtree at the target is what it was, up to xattrs -/
+theorem createOp_frame (d : Disk) (p : List Name) (isMkdir : Bool) (meth : Method) (X : Nat → Node)
+    (hX : ∀ id, NewEntry isMkdir (X id)) (withId : Bool) :
+    Triple (CD d) (do
+      let (pp, n) ← resolveParent p
+      let _ ← lookupSelf pp
+      let id ← (if withId then freshId else pure 0)
+      doCreateLike pp n isMkdir (mkChildOf meth n (X id))
+      let _ ← doLookup pp n
+      pure Reply.done)
+      (fun _ s => Consistent s ∧ FrameD d s.disk p.reverse) (fun s => Consistent s ∧ FrameD d s.disk p.reverse) := by
+  have hE : ∀ s, CD d s → Consistent s ∧ FrameD d s.disk p.reverse := fun s h => ⟨h.1, by rw [h.2]; exact FrameD.refl d _⟩
+  refine Triple.bind ((resolveParent_cd d p).conseq (fun _ h => h) (fun _ _ h => h) hE) fun r => Triple.pure_pre fun hpath => ?_
+  obtain ⟨pp, n⟩ := r
+  simp only at hpath
+  refine Triple.bind ((lookupSelf_cd_ready d pp).conseq (fun _ h => h) (fun _ _ h => h) hE) fun _ => ?_
+  refine Triple.bind (Q := fun _ s => (CD d s ∧ DirAt pp s) ∧ ∃ pm, s.mem pp = some pm ∧ pm.loaded = true) ?_ fun id => ?_
+  · cases withId with
+    | true => exact freshId_keeps fun s h => ⟨⟨⟨h.1.1.1.congr rfl rfl, h.1.1.2⟩, h.1.2⟩, h.2⟩
+    | false => exact Triple.pure' fun _ h => h
+  rw [← hpath]
+  refine Triple.bind (doCreateLike_frame d pp n isMkdir meth (X id) (hX id)) fun _ => ?_
+  refine Triple.bind (Triple.keepDisk' (fun d' => doLookup_ro (loadDirectory_cd d') pp n)
+    (fun d' => FrameD d d' (n :: pp))) fun _ => ?_
+  exact Triple.pure' fun _ h => h
+
+theorem runOp_mkdir_frame (d : Disk) (p : List Name) (mode : Nat) :
+    Triple (CD d) (runOp (.mkdir p mode))
+      (fun _ s => Consistent s ∧ FrameD d s.disk p.reverse) (fun s => Consistent s ∧ FrameD d s.disk p.reverse) := by
+  unfold runOp
+  exact createOp_frame d p true .mkdir (fun _ => .dir mode 0 0)
+    (fun _ => ⟨rfl, rfl, fun _ => ⟨mode, rfl⟩, fun h => (by cases h)⟩) false
+
+theorem runOp_symlink_frame (d : Disk) (p : List Name) (t : Nat) :
+    Triple (CD d) (runOp (.symlink p t))
+      (fun _ s => Consistent s ∧ FrameD d s.disk p.reverse) (fun s => Consistent s ∧ FrameD d s.disk p.reverse) := by
+  unfold runOp
+  exact createOp_frame d p false .symlink (fun _ => .symlink t)
+    (fun _ => ⟨rfl, rfl, fun h => (by cases h), fun _ => rfl⟩) false
+
+theorem runOp_create_frame (d : Disk) (p : List Name) (mode : Nat) :
+    Triple (CD d) (runOp (.create p mode))
+      (fun _ s => Consistent s ∧ FrameD d s.disk p.reverse) (fun s => Consistent s ∧ FrameD d s.disk p.reverse) := by
+  unfold runOp
+  exact createOp_frame d p false .create (fun id => .file id mode [] 0)
+    (fun _ => ⟨rfl, rfl, fun h => (by cases h), fun _ => rfl⟩) true
+
+theorem runOp_mknod_frame (d : Disk) (p : List Name) (mode : Nat) :
+    Triple (CD d) (runOp (.mknod p mode))
+      (fun _ s => Consistent s ∧ FrameD d s.disk p.reverse) (fun s => Consistent s ∧ FrameD d s.disk p.reverse) := by
+  unfold runOp
+  exact createOp_frame d p false .mknod (fun id => .other id mode)
+    (fun _ => ⟨rfl, rfl, fun h => (by cases h), fun _ => rfl⟩) true
 
 end Fbr.Ovl
